@@ -27,8 +27,15 @@ PROP = {'rule': 'rapid-generated cases. One case = one LowNodeLoad plugin instan
                  'once possibly abnormal the node stays so until it CERTAINLY returned to ok: more than ConsecutiveNormalities rounds in a '
                  'row certainly not above the threshold, or the balancer brought it back under the threshold of that level and went on to '
                  'a further candidate pod (asserted only with a static filter and without NodeFit, where the remaining candidates are '
-                 'known); then a new run of N is required. Underused-node resets, timeout expiry and the extra normal mark after an '
-                 'eviction round are not modelled (they only make koordinator more conservative than the model)',
+                 'known), or the node was certainly underused (below all node-level low thresholds and no prod hotspot; resp. between the '
+                 'node-level thresholds and below all prod low thresholds for the prod run) and schedulable in a round in which the pool '
+                 'certainly had a node treated as abnormal (an Evict call was made in the pool in that round, or another node was '
+                 'certainly above a node-level high threshold for N+1 measured rounds in a row with nothing moved off it and the anomaly '
+                 'timeout is hours); then a new run of N is required. Underused-node resets in other rounds, timeout expiry and the extra '
+                 'normal mark after an eviction round are not modelled (they only make koordinator more conservative than the model)',
+                 'TestVerifC18Relapse scripts the node levels of three nodes (n0: overloaded with mostly protected pods for N+1 rounds, '
+                 'underused for one round, overloaded again; n1: always overloaded; n2: mostly underused) in one pool with absolute '
+                 'thresholds, N 2-3, timeout 1h; everything else is generated as in the main test',
                  'with a stateful evictor filter the verdict at the moment of each Evict call is recomputed from the successful evictions '
                  'recorded so far in the round',
                  'the main unit builds the LowNodeLoad struct with the same filter composition as NewLowNodeLoad but feeds NodeMetrics '
@@ -49,7 +56,8 @@ PROP = {'rule': 'rapid-generated cases. One case = one LowNodeLoad plugin instan
                       'thresholds; an upper bound of the receivable load of the underused nodes minus what was already evicted is positive '
                       'in every thresholded resource; with ConsecutiveAbnormalities N>1 the node has a current run of N measured rounds above the '
                       'threshold of that level, and needs a new run after it certainly returned to normal (evicted back under the threshold, '
-                      'or more than ConsecutiveNormalities normal rounds); the pod passes the per-pod evictor verdict, pod selectors, '
+                      'measured as underused while the balancer was handling an abnormal node, or more than ConsecutiveNormalities normal '
+                      'rounds); the pod passes the per-pod evictor verdict, pod selectors, '
                       'namespace rules and, for a stateful evictor filter, the filter as evaluated at the moment of the call; nothing is '
                       'evicted in dry-run. Zero evictions with no overloaded / no underused / only underused nodes follow from the per-call clauses. '
                       'Exploration, not proof: absence of violations over the sampled cases.',
